@@ -2,7 +2,10 @@
 
 package zzverif
 
-import "sort"
+import (
+	"hash"
+	"sort"
+)
 
 // Models: Go implementations that the symbolic executor runs *instead of*
 // library functions whose real bodies use assembly, unsafe or reflection.
@@ -297,4 +300,30 @@ func M_bytes_Compare(a, b []byte) int {
 		return 1
 	}
 	return 0
+}
+
+// Hash is the abstract hash object returned in place of crypto/sha1.New and
+// crypto/md5.New: Sum is an uninterpreted function of the written bytes
+// (HashBytes), functional and assumed collision-free.
+type Hash struct {
+	buf  []byte
+	kind int
+	size int
+}
+
+func (h *Hash) Write(p []byte) (int, error) { h.buf = append(h.buf, p...); return len(p), nil }
+func (h *Hash) Sum(b []byte) []byte        { return append(b, HashBytes(h.kind, h.buf, h.size)...) }
+func (h *Hash) Reset()                     { h.buf = nil }
+func (h *Hash) Size() int                  { return h.size }
+func (h *Hash) BlockSize() int             { return 64 }
+
+func M_sha1_New() hash.Hash { return &Hash{kind: 1, size: 20} }
+func M_md5_New() hash.Hash  { return &Hash{kind: 5, size: 16} }
+func M_sha1_Sum(data []byte) (r [20]byte) {
+	copy(r[:], HashBytes(1, data, 20))
+	return
+}
+func M_md5_Sum(data []byte) (r [16]byte) {
+	copy(r[:], HashBytes(5, data, 16))
+	return
 }
